@@ -707,6 +707,18 @@ def cli_rule(ctx, rid):
         rr.ok("main: every normal exit passes crop.grow_missing(**grow_kwargs)")
     else:
         rr.bad(ctx.finding(rid, main, c, "a normal exit of the CLI is reachable without growing the missing batches", construct="cli-skip"), "cli grows on all paths")
+    # the crop's folder is importable before the crop (and with it the pickled function, possibly by reference to a module
+    # living next to the crop) is loaded
+    paths = [(n_, c_) for n_ in g.nodes for c_ in node_calls(n_) if norm(c_.func) in ("sys.path.append", "sys.path.insert") and "parent_dir" in norm(c_)]
+    crops = [(n_, c_) for n_ in g.nodes for c_ in node_calls(n_) if norm(c_.func).endswith("Crop") and any(k.arg == "parent_dir" for k in c_.keywords)]
+    if paths and crops:
+        if all(any(g.completes_before(pn.id, cn.id) for pn, _ in paths) for cn, _ in crops):
+            rr.ok("main: parent_dir is on sys.path before the crop (and its function) is loaded")
+        else:
+            rr.bad(ctx.finding(rid, main, crops[0][1], "the crop is constructed (auto-loading and unpickling its function) before `%s`: a function pickled by reference to a module that lives next to the crop cannot be imported, the CLI stops with ModuleNotFoundError and nothing is grown" % norm(paths[0][1]),
+                               construct="cli-path-after-crop"), "cli import path")
+    elif crops and not paths:
+        raise AnalysisError("idiom changed: the CLI no longer puts parent_dir on sys.path")
     # the "not sown" refusal guards the unprepared crop, not the prepared one
     for t_ in [x for x in ast.walk(main.node) if isinstance(x, ast.If) and any(isinstance(y, ast.Call) and isinstance(y.func, ast.Attribute) and y.func.attr == "is_prepared" for y in ast.walk(x.test))]:
         raises_in_body = any(isinstance(y, ast.Raise) for y in ast.walk(ast.Module(body=t_.body, type_ignores=[])))
